@@ -20,31 +20,36 @@ class Lit(Piece):
 
 
 class Opq(Piece):
-    """bytes/chars [lo,hi) of opaque source `src`"""
-    __slots__ = ('src', 'lo', 'hi')
-    def __init__(self, src, lo, hi): self.src = src; self.lo = lo; self.hi = hi
+    """bytes/chars [lo,hi) of opaque source `src`; enc = codec the text was encoded with (None for text / raw)"""
+    __slots__ = ('src', 'lo', 'hi', 'enc')
+    def __init__(self, src, lo, hi, enc=None): self.src = src; self.lo = lo; self.hi = hi; self.enc = enc
     def length(self): return self.hi - self.lo
-    def cut(self, a, b): return Opq(self.src, self.lo + a, self.lo + b)
-    def same(self, o): return isinstance(o, Opq) and self.src == o.src and self.lo == o.lo and self.hi == o.hi
-    def __repr__(self): return 'Opq(%s,%r,%r)' % (self.src, self.lo, self.hi)
+    def cut(self, a, b): return Opq(self.src, self.lo + a, self.lo + b, self.enc)
+    def same(self, o): return isinstance(o, Opq) and self.src == o.src and self.enc == o.enc and self.lo == o.lo and self.hi == o.hi
+    def recode(self, enc): return Opq(self.src, self.lo, self.hi, enc)
+    def __repr__(self): return 'Opq(%s,%r,%r%s)' % (self.src, self.lo, self.hi, '' if self.enc is None else ',' + self.enc)
 
 
 class Num(Piece):
     """decimal rendering of n (0 <= n < 10**width), zero padded to width; only whole-piece use"""
-    __slots__ = ('n', 'width')
-    def __init__(self, n, width): self.n = n; self.width = width
+    __slots__ = ('n', 'width', 'enc')
+    def __init__(self, n, width, enc=None): self.n = n; self.width = width; self.enc = enc
+    def recode(self, enc): return Num(self.n, self.width, enc)
     def length(self): return self.width
     def cut(self, a, b):
         if a == 0 and b == self.width:
             return self
         raise Unsupported('partial numeral')
-    def same(self, o): return isinstance(o, Num) and self.width == o.width and self.n == o.n
+    def same(self, o): return isinstance(o, Num) and self.width == o.width and self.enc == o.enc and self.n == o.n
     def __repr__(self): return 'Num(%r,%r)' % (self.n, self.width)
 
 
 class Fill(Piece):
     __slots__ = ('ch', 'count')
+    enc = None
     def __init__(self, ch, count): self.ch = ch; self.count = count
+    def recode(self, enc, to_bytes=None):
+        return Fill(self.ch.encode(enc) if isinstance(self.ch, str) else self.ch.decode(enc), self.count)
     def length(self): return self.count
     def cut(self, a, b): return Fill(self.ch, b - a)
     def same(self, o): return isinstance(o, Fill) and self.ch == o.ch and self.count == o.count
@@ -61,8 +66,8 @@ def _norm(kind, enc, pieces):
             if out and isinstance(out[-1], Lit):
                 out[-1] = Lit(out[-1].v + p.v)
                 continue
-        if isinstance(p, Opq) and out and isinstance(out[-1], Opq) and out[-1].src == p.src and out[-1].hi == p.lo:
-            out[-1] = Opq(p.src, out[-1].lo, p.hi)
+        if isinstance(p, Opq) and out and isinstance(out[-1], Opq) and out[-1].src == p.src and out[-1].enc == p.enc and out[-1].hi == p.lo:
+            out[-1] = Opq(p.src, out[-1].lo, p.hi, p.enc)
             continue
         if isinstance(p, Fill) and out and isinstance(out[-1], Fill) and out[-1].ch == p.ch:
             out[-1] = Fill(p.ch, out[-1].count + p.count)
@@ -148,8 +153,8 @@ class Rope:
         if self.kind != 't': raise AttributeError('encode')
         ps = []
         for p in self.pieces:
-            ps.append(Lit(p.v.encode(encoding)) if isinstance(p, Lit) else p)
-        return mk('b', encoding, ps)
+            ps.append(Lit(p.v.encode(encoding)) if isinstance(p, Lit) else p.recode(encoding))
+        return mk('b', None, ps)
 
     def decode(self, encoding):
         if self.kind != 'b': raise AttributeError('decode')
@@ -157,10 +162,13 @@ class Rope:
         for p in self.pieces:
             if isinstance(p, Lit):
                 ps.append(Lit(p.v.decode(encoding)))
+            elif isinstance(p, Fill):
+                ps.append(p.recode(encoding))
+            elif p.enc == encoding or (p.enc is None and isinstance(p, Opq)):
+                # raw opaque bytes decode to "text of those bytes under <encoding>": remember it in the source
+                ps.append(p.recode(None) if p.enc == encoding else Opq(('dec', encoding, p.src), p.lo, p.hi))
             else:
-                if self.enc != encoding:
-                    raise Unsupported('decode with different codec than encode')
-                ps.append(p)
+                ps.append(Opq(('garbled', p.enc, encoding, repr(p)), 0, p.length()))
         return mk('t', None, ps)
 
     def __eq__(self, other):
